@@ -112,12 +112,29 @@ func TestVerif_C09(t *testing.T) {
 				keep = append(keep, id)
 			}
 		}
+		// every 3rd history: a lost pack file that held a duplicate of a still needed blob plus waste
+		// (missing-but-unneeded pack), the situation prune is documented to repair
+		damaged := false
+		if hi%3 == 2 {
+			damaged = true
+			if desc, err := vCraftMissingDuplicate(t, e, keep, rng); err != nil {
+				res.Problem("history %d: crafting missing duplicate pack: %v", h.Seed, err)
+				continue
+			} else {
+				h.PruneDesc += " damage=" + desc
+				res.Count("damaged_histories", 1)
+			}
+		}
 		startSeq := e.store.NumOps()
 		base := e.store.Files()
 		baseOps := e.store.Ops()
 		perr := e.prune(h.Prune)
 		ops := e.store.Ops()
-		if perr != nil {
+		vOracleSkipCheck = damaged
+		if perr != nil && damaged {
+			// prune may refuse to run on a damaged repository; what matters is that nothing gets lost
+			res.Count("prune_refused_on_damaged_history", 1)
+		} else if perr != nil {
 			res.Problem("history %d: prune (%s) failed on an undamaged repository: %v :: %s", h.Seed, h.PruneDesc, perr, vTail(e.lastErr, 300))
 			continue
 		}
@@ -158,13 +175,19 @@ func TestVerif_C09(t *testing.T) {
 				st.Del(backendHandle{Type: lockFileType, Name: n})
 			}
 			e2 := newVEnv(t, st)
-			if err := e2.prune(PruneOptions{MaxUnused: "0"}); err != nil {
+			if err := e2.prune(PruneOptions{MaxUnused: "0"}); err != nil && damaged {
+				// a refusal is fine on environment-damaged storage, but nothing may have been lost
+				if fails := vOracle(t, e2.store.Files(), vPassword, want, keep); len(fails) > 0 {
+					res.Violate("prune/rerun-after-crash/"+vClass(fails[0]), fmt.Sprintf("history seed %d: after a refused re-run of prune on crash prefix %d: %v", h.Seed, points[0], fails), map[string]any{"history": h.Seed, "seq": points[0]})
+				}
+			} else if err != nil {
 				res.Violate("prune/rerun-after-crash/fails", fmt.Sprintf("history seed %d: prune after crash at op %d failed: %v", h.Seed, points[0], err), map[string]any{"history": h.Seed, "seq": points[0]})
 			} else if fails := vOracle(t, e2.store.Files(), vPassword, want, keep); len(fails) > 0 {
 				res.Violate("prune/rerun-after-crash/"+vClass(fails[0]), fmt.Sprintf("history seed %d: after re-running prune on crash prefix %d: %v", h.Seed, points[0], fails), map[string]any{"history": h.Seed, "seq": points[0]})
 			}
 			res.Count("reruns", 1)
 		}
+		vOracleSkipCheck = false
 		tr.Write(kit.Ev{"ev": "Reset", "proc": "env", "history": h.Seed, "desc": h.PruneDesc})
 		vWriteTrace(tr, e.trace(false))
 		res.Count("histories", 1)
